@@ -7,7 +7,7 @@ Data are tracked symbolically: an image holds a list of time slabs; each slab na
 and root time index it was taken from and, per matrix axis, the list of root indices it holds
 (numpy basic slicing = `drop`/`take` on those lists). "Contains exactly the corresponding block of
 the parent's data" is then an equality of index lists, for any payload (scalar / vector).
-Dates are seconds (`Int`), relative times `Rat`. Core Lean only.
+Dates are microseconds (`Int`), relative times seconds (`Rat`). Core Lean only.
 -/
 import DarsiaModel.Coord
 import DarsiaModel.Patches
@@ -47,12 +47,16 @@ def sliceIdx (N : Nat) (s : PySlice) : Nat × Nat :=
 /-- `Image._is_none` on a list -/
 def anyNone {α} (l : List (Option α)) : Bool := l.any Option.isNone
 
+/-- `(date − reference).total_seconds()`: dates are `datetime`s, modelled by their integer number of MICROSECONDS (Python's
+resolution); the relative time is the whole signed difference — days, seconds and microseconds — in seconds -/
+def secondsBetween (x r : Int) : Rat := ((x - r : Int) : Rat) / 1000000
+
 /-- `Image.set_time(None)`: relative times from the dates -/
 def timesFromDates (date : List (Option Int)) (ref : Option Int) : Except Err (List (Option Rat)) :=
   if anyNone date then .ok (date.map fun _ => none)
   else match ref with
     | none => .error .type
-    | some r => .ok (date.map fun d => d.map fun x => ((x - r : Int) : Rat))
+    | some r => .ok (date.map fun d => d.map fun x => secondsBetween x r)
 
 /-- a freshly constructed image on root array `rid` (`Image.__init__`): `T` time slabs; `refArg` is the
 `reference_date` keyword (`none`: not given → the first date) -/
@@ -116,7 +120,7 @@ def sliceTime (t : Option Rat) (d : Option Int) (ref : Option Int) : Except Err 
     | none => .ok none
     | some x => match ref with
       | none => .error .type
-      | some r => .ok (some ((x - r : Int) : Rat))
+      | some r => .ok (some (secondsBetween x r))
 
 /-- `Image.time_slice(k)` -/
 def Img.timeSlice (im : Img) (k : Int) : Except Err Img :=
